@@ -129,6 +129,9 @@ func debugSetLocal(L *LState) int {
 }
 
 func debugSetMetatable(L *LState) int {
+	if L.GetTop() < 2 {
+		L.ArgError(2, "nil or table expected")
+	}
 	L.CheckTypes(2, LTNil, LTTable)
 	obj := L.Get(1)
 	mt := L.Get(2)
